@@ -305,14 +305,40 @@ def check_files(case, stats):
         raise Violation(case, "the language table loaded by the package differs from the master table")
 
 
+def check_table_after_use(case, stats):
+    """every entry point that reads the language table (classic matcher, Markdown matcher, Dialect objects) leaves it as shipped"""
+    from gherkin.token_matcher_markdown import GherkinInMarkdownTokenMatcher as MD
+    from gherkin.dialect import Dialect
+    stats.case("table-after-use", True, sample=case)
+    for d in sorted(DIALECTS):
+        D = DIALECTS[d]
+        for M in (MD, gh.TokenMatcher):
+            m = M(d)
+            for line in ("* " + D["given"][-1] + "x\n", D["when"][-1] + "y\n", "# " + D["feature"][0] + ": f\n", D["scenario"][0] + ": s\n", "  | a |\n"):
+                t = gh.Token(gh.GherkinLine(line, 1), {"line": 1})
+                for meth in ("match_StepLine", "match_FeatureLine", "match_ScenarioLine", "match_TableRow"):
+                    getattr(m, meth)(t)
+        dd = Dialect.for_name(d)
+        for attr in ("feature_keywords", "given_keywords", "when_keywords", "then_keywords", "and_keywords", "but_keywords"):
+            getattr(dd, attr)
+    prob = gh.language_table_problem()
+    if prob:
+        raise Violation(case, "the shared language table was modified by using the matchers: " + prob)
+    # and the table still drives recognition as listed
+    for d, cat, kw in (("en", "when", "When "), ("fr", "then", "Alors "), ("ht", "when", "Lè ")):
+        check_kw({"sub": "kw", "dialect": d, "cat": cat, "kw": kw, "mode": "default", "layout": 0}, Stats())
+
+
 def unit_files(a):
     stats = Stats()
+    sweep(stats, [{"sub": "files"}], check_files)
+    sweep(stats, [{"sub": "table-after-use"}], check_table_after_use)
     sweep(stats, [{"sub": "files"}], check_files)
     return stats
 
 
 def replay(case, stats):
-    return {"kw": check_kw, "foreign": check_foreign, "pair": check_pair, "nearmiss": check_nearmiss, "header": check_header, "files": check_files}[case["sub"]](case, stats)
+    return {"kw": check_kw, "foreign": check_foreign, "pair": check_pair, "nearmiss": check_nearmiss, "header": check_header, "files": check_files, "table-after-use": check_table_after_use}[case["sub"]](case, stats)
 
 
 def run(ctx):
